@@ -7,7 +7,7 @@ V="$(cd "$(dirname "${BASH_SOURCE[0]}")/.." && pwd)"
 out="$1"; checks="$2"; shift 2
 [ "$checks" = "ALL" ] && checks="C01 C02 C03 C04 C05 C06 C07 C08 C09 C10 C11 C12 C13 C14 C15 C16 C17"
 for n in "$@"; do
-  p="/verif/seeded/$n/patch.diff"; [ -f "$p" ] || p="/verif/mutants/revert-$n.diff"
+  p="/verif/seeded/$n/patch.diff"; [ -f "$p" ] || p="/verif/benign/$n/patch.diff"; [ -f "$p" ] || p="/verif/mutants/revert-$n.diff"
   [ -f "$p" ] || { echo "$n NO-PATCH" >> "$out"; continue; }
   "$V/tools/mutant_matrix.sh" "$n" "$p" $checks >> "$out" 2>&1
 done
